@@ -290,15 +290,14 @@ def run_case(case, ctx):
     segnames = {'CODE': 1, 'DATA': 2, 'IDATA': 3, 'XDATA': 4, 'YDATA': 5, 'BITDATA': 6, 'IO': 7, 'REG': 8, 'ROMDATA': 9, 'EEDATA': 10}
     starts = set()
     for e in ev:
-        starts.add((int(e['seg']), int(e['line']), int(e['addr'], 16)))
+        starts.add((int(e['seg']), os.path.basename(e.get('file', '')), int(e['line']), int(e['addr'], 16)))
     for e in a.trace:
         # reservations: a record boundary whose new start lies beyond the current program counter
         if e['k'] == 'N' and int(e['pass']) == last and 'pc' in e and int(e['start'], 16) != int(e['pc'], 16):
-            starts.add((int(e['seg']), int(e['line']), int(e['pc'], 16)))
+            starts.add((int(e['seg']), os.path.basename(e.get('file', '')), int(e['line']), int(e['pc'], 16)))
     # a chunk may be split (BINCLUDE) or merged; line info is per code-bearing statement: accept the start of any chunk of that line
     insym = False
     nmap = 0
-    multi_file = mp.count('\nFile ') + mp.startswith('File ') > 1 or 'macro' in lst.lower()
     for raw in mp.split('\n'):
         if raw.startswith('Segment '):
             seg = segnames.get(raw.split()[1])
@@ -329,15 +328,14 @@ def run_case(case, ctx):
         if seg is not None and fil is not None:
             for m in re.finditer(r'(\d+):([0-9A-Fa-f]+)', raw):
                 line, addr = int(m.group(1)), int(m.group(2), 16)
-                if (seg, line, addr) in starts:
+                fb = os.path.basename(fil)
+                if (seg, fb, line, addr) in starts:
                     nmap += 1
-                elif any(s == seg and l == line for s, l, a in starts):
-                    # the line did produce code or a reservation in this segment, but nowhere at the stated address
-                    # (macro bodies and include files reuse line numbers: only judged when no other file is involved)
-                    if not multi_file:
-                        out.violate('map:address-wrong-for-line', '%s: MAP entry %d:%X in segment %d, but line %d starts at %s' % (
-                            tag, line, addr, seg, line, sorted(hex(a) for s, l, a in starts if s == seg and l == line)[:4]))
-                        break
+                elif any(s_ == seg and f_ == fb and l_ == line for s_, f_, l_, a_ in starts):
+                    # that line of that file did produce code or a reservation in this segment, but nowhere at the stated address
+                    out.violate('map:address-wrong-for-line', '%s: MAP entry %d:%X (file %s, segment %d), but that line starts at %s' % (
+                        tag, line, addr, fb, seg, sorted(hex(a_) for s_, f_, l_, a_ in starts if s_ == seg and f_ == fb and l_ == line)[:4]))
+                    break
                 else:
                     # statements of length zero (ALIGN that is already aligned) also get an entry: nothing to compare
                     out.obs['map_entries_for_zero_length_statements'] += 1
